@@ -54,7 +54,9 @@ Record cmd := mkC {
   c_alt : option N;                       (* ... or this one (a Drain call that may be its own) *)
   c_tc : N;                               (* time of its latest own step *)
   c_pending : list nat;                   (* replaced targets whose Drain has not begun *)
-  c_disp : option nat                     (* balancer it is disposing right now *)
+  c_disp : option nat;                    (* balancer it is disposing right now *)
+  c_new : option nat;                     (* ghost: the balancer it created *)
+  c_repl : option (option nat)            (* ghost: it updated the slot, replacing this balancer *)
 }.
 
 Record lbr := mkL {
@@ -142,16 +144,20 @@ Definition disp_ok (st : state) (cm : cmd) : bool :=
 
 (** after an own step at time [t] *)
 Definition stepped (cm : cmd) (t : N) (ph : phase) : cmd :=
-  mkC (c_kind cm) (c_issue cm) (c_dt cm) (c_drt cm) ph t None t (c_pending cm) None.
+  mkC (c_kind cm) (c_issue cm) (c_dt cm) (c_drt cm) ph t None t (c_pending cm) None (c_new cm) (c_repl cm).
 
 Definition set_pending (cm : cmd) (p : list nat) : cmd :=
-  mkC (c_kind cm) (c_issue cm) (c_dt cm) (c_drt cm) (c_phase cm) (c_last cm) (c_alt cm) (c_tc cm) p (c_disp cm).
+  mkC (c_kind cm) (c_issue cm) (c_dt cm) (c_drt cm) (c_phase cm) (c_last cm) (c_alt cm) (c_tc cm) p (c_disp cm) (c_new cm) (c_repl cm).
 Definition set_disp (cm : cmd) (d : option nat) : cmd :=
-  mkC (c_kind cm) (c_issue cm) (c_dt cm) (c_drt cm) (c_phase cm) (c_last cm) (c_alt cm) (c_tc cm) (c_pending cm) d.
+  mkC (c_kind cm) (c_issue cm) (c_dt cm) (c_drt cm) (c_phase cm) (c_last cm) (c_alt cm) (c_tc cm) (c_pending cm) d (c_new cm) (c_repl cm).
 Definition set_last (cm : cmd) (t : N) : cmd :=
-  mkC (c_kind cm) (c_issue cm) (c_dt cm) (c_drt cm) (c_phase cm) t (c_alt cm) (c_tc cm) (c_pending cm) (c_disp cm).
+  mkC (c_kind cm) (c_issue cm) (c_dt cm) (c_drt cm) (c_phase cm) t (c_alt cm) (c_tc cm) (c_pending cm) (c_disp cm) (c_new cm) (c_repl cm).
+Definition set_new (cm : cmd) (lb : nat) : cmd :=
+  mkC (c_kind cm) (c_issue cm) (c_dt cm) (c_drt cm) (c_phase cm) (c_last cm) (c_alt cm) (c_tc cm) (c_pending cm) (c_disp cm) (Some lb) (c_repl cm).
+Definition set_repl (cm : cmd) (r : option (option nat)) : cmd :=
+  mkC (c_kind cm) (c_issue cm) (c_dt cm) (c_drt cm) (c_phase cm) (c_last cm) (c_alt cm) (c_tc cm) (c_pending cm) (c_disp cm) (c_new cm) r.
 Definition set_alt (cm : cmd) (t : N) : cmd :=
-  mkC (c_kind cm) (c_issue cm) (c_dt cm) (c_drt cm) (c_phase cm) (c_last cm) (Some t) (c_tc cm) (c_pending cm) (c_disp cm).
+  mkC (c_kind cm) (c_issue cm) (c_dt cm) (c_drt cm) (c_phase cm) (c_last cm) (Some t) (c_tc cm) (c_pending cm) (c_disp cm) (c_new cm) (c_repl cm).
 
 (** ** Drain calls and the commands that started them *)
 
@@ -186,6 +192,9 @@ Definition cont_ok (st : state) (c : nat) (cm : cmd) : bool :=
   match c_pending cm with [] => true | _ => false end &&
   forallb (fun p => negb (owns c (snd p))) (drains st).
 
+Definition in_drain_phase (cm : cmd) : bool :=
+  match c_phase cm with PInstalled (Some _) | PGate => true | _ => false end.
+
 (** a Drain call returned at [t]: tell the commands that may have started it *)
 Definition notify_one (st : state) (d : drain) (t : N) (cs : option (list (nat * cmd))) (o : nat * bool)
   : option (list (nat * cmd)) :=
@@ -195,6 +204,7 @@ Definition notify_one (st : state) (d : drain) (t : N) (cs : option (list (nat *
     match nget l (fst o) with
     | None => Some l
     | Some cm =>
+      if negb (in_drain_phase cm) then Some l else       (* it has gone on: this call was not its own *)
       if parks st || ((d_mark d =? c_tc cm) && (d_timeout d =? c_drt cm)) then
         Some (nset l (fst o) (if snd o then set_last cm t else set_alt cm t))
       else None
@@ -270,6 +280,15 @@ Definition return_ok (pinned : bool) (k : cmdkind) (ph : phase) (r : cresult) : 
 
 (** ** The acceptor *)
 
+(** between the install and the Drain calls a deploy takes no time: its own
+    steps before the dispose of the replaced balancer are at the time of the install *)
+Definition tc_ok (st : state) (cm : cmd) (k : kind) (now : N) : bool :=
+  match c_phase cm, k with
+  | PInstalled (Some _), KLbDispose _ => true
+  | PInstalled (Some _), _ => parks st || (now =? c_tc cm)
+  | _, _ => true
+  end.
+
 Definition put (st : state) (c : nat) (cm : cmd) : state := upd_cmds st (nset (cmds st) c cm).
 
 Definition is_gate (ph : phase) : bool := match ph with PGate => true | _ => false end.
@@ -282,14 +301,15 @@ Definition own_step (pinned : bool) (st : state) (c : nat) (cm : cmd) (e : event
   | KProbeStop t => Some (set_probing st t false)          (* part of a Dispose *)
   | k =>
     if negb (disp_ok st cm) then None else
+    if negb (tc_ok st cm k now) then None else
     if is_gate (c_phase cm) && negb (cont_ok st c cm) then None else
     let ph := match c_phase cm with PGate => PAfter | p => p end in
     match k with
     | KLbNew lb ts =>
       match ph with
-      | PStart => if is_deploy (c_kind cm) then
+      | PStart => if is_deploy (c_kind cm) && match c_new cm with None => true | Some _ => false end then
                     match new_lb st lb ts (Some c) with
-                    | Some st1 => Some (put st1 c (stepped cm now (PLb lb)))
+                    | Some st1 => Some (put st1 c (set_new (stepped cm now (PLb lb)) lb))
                     | None => None
                     end
                   else None
@@ -311,10 +331,10 @@ Definition own_step (pinned : bool) (st : state) (c : nat) (cm : cmd) (e : event
     | KSlot s ro lb rep =>
       match ph with
       | PWaited lb' =>
-        if Nat.eqb lb lb' then
+        if Nat.eqb lb lb' && match c_repl cm with None => true | Some _ => false end then
           let x := svc_slots st s in
           Some (put (upd_svcs st (nset (svcs st) s (if ro then (fst x, Some lb) else (Some lb, snd x))))
-                    c (stepped cm now (PSlot lb rep)))
+                    c (set_repl (stepped cm now (PSlot lb rep)) (Some rep)))
         else None
       | _ => None
       end
@@ -375,14 +395,14 @@ Definition step_gen (pinned : bool) (st0 : state) (e : event) : option state :=
   | KIssue c k _ =>
     match nget (cmds st) c with
     | Some _ => None
-    | None => Some (put st c (mkC k now 0 0 PNew now None now [] None))
+    | None => Some (put st c (mkC k now 0 0 PNew now None now [] None None None))
     end
   | KParams c dt drt _ =>
     match nget (cmds st) c with
     | Some cm =>
       match c_phase cm with
       | PNew => if own_time_ok st cm now
-                then Some (put st c (mkC (c_kind cm) (c_issue cm) dt drt PStart now None now [] None))
+                then Some (put st c (mkC (c_kind cm) (c_issue cm) dt drt PStart now None now [] None None None))
                 else None
       | _ => None
       end
@@ -504,6 +524,11 @@ Definition step_gen (pinned : bool) (st0 : state) (e : event) : option state :=
       | None => None
       end
     | None => Some st
+    end
+  | KReturn c _ =>                                         (* only the command itself returns *)
+    match nget (cmds st) c with
+    | Some cm => if actor_eqb (e_by e) (ACmd c) then own_step pinned st c cm e else None
+    | None => None
     end
   | k =>
     match e_by e with
